@@ -5,6 +5,8 @@ import SekaiProofs.Props.C07
 import SekaiProofs.Lemmas.PermGenesis
 import Sekai.Gen.App
 import Sekai.Model.App
+import Sekai.Gen.Keys
+import SekaiProofs.Lemmas.Keys
 /-! # C12 — Genesis export and re-import reproduce the chain state  (partial: byte-level stores)
 
 * `genesis_coverage_as_reviewed`: per module, the record kinds (store prefixes) the keeper can write and the keeper
@@ -203,5 +205,21 @@ theorem init_order_as_modelled :
     Sekai.App.before Sekai.Gen.App.initOrder "stakingtypes.ModuleName" "genutiltypes.ModuleName" = true ∧
     Sekai.App.before Sekai.Gen.App.initOrder "stakingtypes.ModuleName" "multistakingtypes.ModuleName" = true ∧
     Sekai.App.before Sekai.Gen.App.initOrder "tokenstypes.ModuleName" "baskettypes.ModuleName" = true := by decide +kernel
+
+/-! ### Key spaces (table `Gen.Keys`)
+
+Export walks every record kind by its prefix. If a prefix extended another, the walk over the shorter one would also pick up
+(and try to decode) the records of the longer one. On the code as it is no module has such a pair, and no key variable has a
+value the translator could not read. -/
+
+theorem no_store_has_overlapping_prefixes :
+    (Sekai.Gen.Keys.stores.filter fun m => !(Sekai.Keys.clashes m.2).isEmpty) = [] ∧ Sekai.Gen.Keys.unrecognised = [] := by
+  decide +kernel
+
+/-- the table covers the modules whose stores the round trip compares -/
+theorem key_table_covers_modules :
+    ["basket", "collectives", "custody", "distributor", "gov", "layer2", "multistaking", "recovery", "slashing", "spending",
+     "staking", "ubi", "upgrade"].all (fun m => !(Sekai.Keys.rowsOf Sekai.Gen.Keys.stores m).isEmpty) = true := by
+  decide +kernel
 
 end Sekai.Props.C12
